@@ -71,7 +71,7 @@ func checkC16(w *World, r *Report) {
 						// bit size argument: int(i.t)
 						width := false
 						ast.Inspect(ce.Args[2], func(y ast.Node) bool {
-							if f := fieldOfSel(p, asExpr(y)); f != nil && f.Name() == "t" {
+							if f := fieldOfSel(p, asExpr(y)); f != nil && nm(f) == "t" {
 								width = true
 							}
 							return true
@@ -213,7 +213,7 @@ func checkC16(w *World, r *Report) {
 			panic(undecided{"Compiler.getTypes"})
 		}
 		found, ok, why := everyIterationAppends(f, func(c *ssa.Call) bool {
-			return c.Call.StaticCallee() != nil && c.Call.StaticCallee().Name() == "BuildType"
+			return c.Call.StaticCallee() != nil && nm(c.Call.StaticCallee()) == "BuildType"
 		})
 		if !found {
 			panic(undecided{"getTypes: loop that builds the member types"})
@@ -226,7 +226,7 @@ func checkC16(w *World, r *Report) {
 		eff := NewEffects(w)
 		n := 0
 		for _, f := range allFuncs(w.SSAPkg("schema")) {
-			if f.Name() != "Validate" || f.Signature.Recv() == nil || f.Parent() != nil || len(f.Params) == 0 {
+			if nm(f) != "Validate" || f.Signature.Recv() == nil || f.Parent() != nil || len(f.Params) == 0 {
 				continue
 			}
 			if !strings.HasSuffix(w.Fset.Position(f.Pos()).Filename, "/types.go") {
@@ -276,7 +276,7 @@ func checkC16(w *World, r *Report) {
 			okM := false
 			if len(fd.Body.List) == 2 {
 				if rs, isR := fd.Body.List[0].(*ast.RangeStmt); isR {
-					if f := fieldOfSel(p, rs.X); f != nil && f.Name() == c.field && len(rs.Body.List) == 1 {
+					if f := fieldOfSel(p, rs.X); f != nil && nm(f) == c.field && len(rs.Body.List) == 1 {
 						if is, isIf := rs.Body.List[0].(*ast.IfStmt); isIf {
 							if be, isB := ast.Unparen(is.Cond).(*ast.BinaryExpr); isB && be.Op == token.EQL {
 								sel, isSel := ast.Unparen(be.X).(*ast.SelectorExpr)
@@ -302,7 +302,7 @@ func checkC16(w *World, r *Report) {
 			if !isR {
 				return true
 			}
-			if f := fieldOfSel(p, rs.X); f == nil || f.Name() != "typs" {
+			if f := fieldOfSel(p, rs.X); f == nil || nm(f) != "typs" {
 				return true
 			}
 			// member.Validate(ctx, path, s); nil ⇒ matched/break
